@@ -38,3 +38,13 @@ instance : HasConj Rat := ⟨id⟩
 instance : HasConj Int := ⟨id⟩
 
 end Ptn
+
+namespace Ptn
+/-- embedding of the real type `ρ` into the entry type `α`, and real part. -/
+class RealLike (ρ α : Type) where
+  ofReal : ρ → α
+  re : α → ρ
+
+instance : RealLike Rat GRat := ⟨GRat.ofRat, GRat.re⟩
+instance : RealLike Rat Rat := ⟨id, id⟩
+end Ptn
